@@ -895,6 +895,13 @@ class Expander:
                 # site rewrites of the enclosing fn also apply inside the lifted body
                 for a_, b_, _opt in spec["bodysubs"]:
                     lifted_body = re.sub(a_, b_, lifted_body)
+                # closures inside the lifted body whose parameter is a pattern
+                if re.search(r"\|\s*(\(|[A-Z]\w*\s*\{)", lifted_body):
+                    try:
+                        lifted_body, ncp = desugar_closure_patterns(lifted_body, self.closure_pats)
+                        self.closure_pats += ncp
+                    except Exception:
+                        pass
                 self._pending_lifts.append((lc, lifted_id, rel, lifted_body, base + b0, src.count("\n", 0, base + a0) + 1))
                 self.rewrites.append("%s: closure `%s` in %s lifted (body verbatim) to fn %s so that it can carry a contract" % (rel, t[a0:p1 + 1], fnid, lc["name"]))
                 done = True
